@@ -52,7 +52,11 @@ def setup(ctx, rest_times, facts, activate=True, TH=None, entries=1):
     I = w.I
     I.positive = list(facts)
     for k in (1, 2):
-        recs.append(I.new_obj(f"rec{k}", None, {"Thalf_hrs": (TH or THALF)[k - 1]}, open_attrs=set()))
+        # two table rows that produce the same daughter from different parents, with their own tabulated half-lives (as
+        # Co-60m from Co-59 and from Ni-60 in the real table); the descriptive fields are there for code that reads them
+        recs.append(I.new_obj(f"rec{k}", None, {"Thalf_hrs": (TH or THALF)[k - 1], "daughter": "X-60m", "isotope": f"P-{58 + k}", "reaction": "act",
+                                                "Thalf_str": f"{k} h", "isomer": "m", "comments": "", "fast": False, "symbol": "P", "A": sp.Integer(58 + k),
+                                                "Z": sp.Integer(27)}, open_attrs=set()))
     S = I.get_class("activation.Sample")
     atoms_ = {w.atoms["isotope"]: sp.Integer(1)}
     if entries == 2:       # two formula entries (two isotopes) feeding the same products
